@@ -117,6 +117,8 @@ def run(chk):
             if (q == q) or not (q != q) or (q == ureg.Quantity(math.nan, uname)):
                 chk.diverge({"clause": "nan", "autoconvert": ac}, {"unit": uname})
 
+    nan_in_arrays(chk)
+    decimal_in_float_registry(chk)
     events = drive_default(chk, rng, 6000 if thorough else 1500)
     for e, clause in defreg.validate(chk, "Trace_Reg", events):
         cls = "root-units-differ-by-dimensionless-base-unit" if e.get("_rootdiff") else "plain"
@@ -127,6 +129,47 @@ def run(chk):
              "comparison operator / hash) executed on a materialised registry; distinct by (mode, op, a, b); non-trivial = operands "
              "in different units; plus constructed equal / adjacent pairs over the bundled registry validated by Trace_Reg",
         exhaustive=True)
+
+
+def nan_in_arrays(chk):
+    """NaN is never equal, not even to itself - element by element in array magnitudes, also when both sides share one array object"""
+    import numpy as np
+    import pint
+    u = pint.UnitRegistry()
+    a = np.array([1.0, np.nan, 3.0])
+    q = u.Quantity(a, "meter")
+    forms = {"q == q": lambda: q == q, "Q(a) == Q(a)": lambda: u.Quantity(a, "meter") == u.Quantity(a, "meter"), "q == q.copy": lambda: q == u.Quantity(a.copy(), "meter"),
+             "q == q.to(cm)": lambda: q == q.to("centimeter"), "not (q != q)": lambda: ~(q != q), "not (Q(a) != Q(a))": lambda: ~(u.Quantity(a, "meter") != u.Quantity(a, "meter"))}
+    for name, f in forms.items():
+        chk.case(("nan-array", name))
+        try:
+            got = np.asarray(f()).tolist()
+        except Exception as e:
+            chk.diverge({"clause": "nan-array-raises", "exc": type(e).__name__}, {"form": name})
+            continue
+        if got != [True, False, True]:
+            chk.diverge({"clause": "nan", "form": "ndarray"}, {"form": name, "expected": [True, False, True], "observed": got})
+
+
+def decimal_in_float_registry(chk):
+    """Decimal magnitudes in the default (float) registry: where the conversion factor is a power of ten - exactly representable as a
+    decimal literal - physically equal quantities written in the two units are equal, neither smaller nor greater, and hash alike"""
+    import pint
+    from decimal import Decimal as D
+    u = pint.UnitRegistry()
+    for a, b, k in (("centimeter", "meter", D("0.01")), ("kilometer", "meter", D("1000")), ("millimeter", "meter", D("0.001")), ("gram", "kilogram", D("0.001")),
+                    ("millisecond", "second", D("0.001")), ("hectopascal", "pascal", D("100")), ("microgram", "gram", D("0.000001"))):
+        for m in (D(1), D("2.5"), D(-7)):
+            chk.case(("decimal-float-registry", a, b, str(m)))
+            x, y = u.Quantity(m, a), u.Quantity(m * k, b)
+            try:
+                facts = {"eq": x == y, "eq-reflected": y == x, "ne": not (x != y), "le": x <= y, "ge": x >= y, "not-lt": not (x < y), "not-gt": not (x > y), "hash": hash(x) == hash(y)}
+            except Exception as e:
+                chk.diverge({"clause": "decimal-comparison-raises", "exc": type(e).__name__}, {"a": str(x), "b": str(y)})
+                continue
+            bad = sorted(f for f, ok in facts.items() if not ok)
+            if bad:
+                chk.diverge({"clause": "decimal-in-float-registry", "fact": bad[0]}, {"a": str(x), "b": str(y), "failed": bad})
 
 
 def pint_context():
